@@ -234,7 +234,10 @@ class Trajectory(PymatgenTrajectory):
         kwargs.setdefault('parse_potcar_file', False)
 
         if not cache:
-            serialized = json.dumps(kwargs, sort_keys=True).encode()
+            cache_kwargs = dict(kwargs)
+            if not constant_lattice:
+                cache_kwargs['constant_lattice'] = constant_lattice
+            serialized = json.dumps(cache_kwargs, sort_keys=True).encode()
             hashid = hashlib.sha1(serialized).hexdigest()[:8]
             cache = Path(xml_file).with_suffix(f'.xml.{hashid}.cache')
 
@@ -325,6 +328,13 @@ class Trajectory(PymatgenTrajectory):
                 'temperature': temperature,
                 'time_step': time_step,
             }
+            # Only add non-default values, so existing cache files remain valid
+            if atom_style != 'atomic':
+                kwargs['atom_style'] = atom_style
+            if type_mapping:
+                kwargs['type_mapping'] = type_mapping
+            if not constant_lattice:
+                kwargs['constant_lattice'] = constant_lattice
             serialized = json.dumps(kwargs, sort_keys=True).encode()
             hashid = hashlib.sha1(serialized).hexdigest()[:8]
             cache = Path(coords_file).with_suffix(f'.{coords_format}.{hashid}.cache')
@@ -425,6 +435,9 @@ class Trajectory(PymatgenTrajectory):
                 'edr_file': edr_file,
                 'temperature': temperature,
             }
+            # Only add non-default values, so existing cache files remain valid
+            if not constant_lattice:
+                kwargs['constant_lattice'] = constant_lattice
             serialized = json.dumps(kwargs, sort_keys=True).encode()
             hashid = hashlib.sha1(serialized).hexdigest()[:8]
             cache = Path(coords_file).with_suffix(f'.{hashid}.cache')
